@@ -919,6 +919,9 @@ class EvalFuncVarClassInst(EvalFuncVar):
         self.ast_ctx = ast_ctx
         self.class_inst_weak = class_inst_weak
 
+    def __del__(self):
+        """A bound method shares the function with the class attribute; dropping it must not stop the triggers."""
+
     async def call(self, ast_ctx, *args, **kwargs):
         """Call the EvalFunc function."""
         return await self.func.call(ast_ctx, self.class_inst_weak(), *args, **kwargs)
